@@ -559,6 +559,83 @@ func unknownInsertion(c *explore.Ctx) {
 	}
 }
 
+// ---- depth ladder: messages nested by the sender
+
+type deepN struct {
+	Next *deepN
+	V    int32
+	Kids []deepN
+	M    map[int32]*deepN
+}
+
+var ladderDepths = []int{100, 9999, 10000, 10001, 100000, 1000000, 4000000}
+
+// nestedMessages builds depth nested length-delimited fields from the inside out.
+func nestedMessages(depth int, shape int) []byte {
+	buf := make([]byte, depth*12+16)
+	pos := len(buf)
+	n := 0 // length of the payload built so far
+	put := func(bs ...byte) {
+		pos -= len(bs)
+		copy(buf[pos:], bs)
+		n += len(bs)
+	}
+	putVarint := func(v int) {
+		var tmp [10]byte
+		k := 0
+		for v >= 0x80 {
+			tmp[k] = byte(v) | 0x80
+			v >>= 7
+			k++
+		}
+		tmp[k] = byte(v)
+		put(tmp[:k+1]...)
+	}
+	put(0x10, 0x07) // innermost: V = 7
+	for i := 0; i < depth; i++ {
+		switch shape {
+		case 0: // Next (field 1)
+			putVarint(n)
+			put(0x0a)
+		case 1: // Kids (field 3)
+			putVarint(n)
+			put(0x1a)
+		case 2: // M (field 4): entry{key 1: 5, value 2: message}
+			putVarint(n)
+			put(0x08, 0x05, 0x12)
+			putVarint(n)
+			put(0x22)
+		}
+	}
+	return buf[pos:]
+}
+
+func depthLadder(c *explore.Ctx) {
+	shape := c.Choose(3)
+	depth := ladderDepths[c.Choose(len(ladderDepths))]
+	truncated := c.Bool()
+	in := nestedMessages(depth, shape)
+	if truncated {
+		in = in[:len(in)-1]
+	}
+	name := []string{"pointer field", "repeated field", "map value"}[shape]
+	var out deepN
+	var err error
+	if pv, ps := explore.Catch(func() { err = proto.Unmarshal(in, &out) }); pv != nil {
+		c.Fail("depth:panic:"+ps+":"+explore.PanicClass(pv), "Unmarshal panics on messages nested %d deep through a %s: %v", depth, name, pv)
+	} else if truncated && err == nil {
+		c.Fail("depth:accepted-truncated", "Unmarshal accepts truncated messages nested %d deep through a %s", depth, name)
+	}
+	if pv, ps := explore.Catch(func() {
+		proto.Scan(in, func(proto.FieldNumber, proto.WireType, proto.RawValue) (bool, error) { return true, nil })
+	}); pv != nil {
+		c.Fail("depth:Scan:panic:"+ps, "Scan panics on messages nested %d deep: %v", depth, pv)
+	}
+	c.NontrivialStr("depth", name, fmt.Sprint(depth, truncated))
+	c.Outcome(fmt.Sprintf("err=%v", err != nil))
+	c.Case(map[string]any{"shape": name, "depth": depth, "truncated": truncated, "input_bytes": len(in)})
+}
+
 // ---- growth of repeated fields
 
 type growInner struct {
@@ -659,6 +736,7 @@ func Spec() *explore.Spec {
 			{Name: "short-bytes", ShardDepth: 2, Body: shortBytes, Doc: "all byte strings <=2 over all 256 values and <=5 (6 thorough) over a 16-byte class alphabet x target types covering every codec"},
 			{Name: "length3", ShardDepth: 2, Body: length3, Doc: "all byte strings of length 3 over all 256 values for 6 representative targets"},
 			{Name: "mutations", ShardDepth: 2, Body: mutations, Doc: "valid encodings of boundary values: every prefix, every (position x 256) corruption, every byte replaced by special varints (0,1,127,128,2^31-1,2^32,2^63,2^64-1, 11-byte)"},
+			{Name: "depth-ladder", ShardDepth: 3, HangSeconds: 300, MaxWorkers: 8, Body: depthLadder, Doc: "messages nested 100 ... 4,000,000 deep by the sender through a pointer field, a repeated field and a map value of a recursive message type, complete and cut by one byte: an error or a value, no stack overflow"},
 			{Name: "repeated-growth", ShardDepth: 2, Body: repeatedGrowth, Doc: "repeated fields of 8 element kinds (varint, fixed, string, bytes, message, pointer to message, inside a map value, inside a nested message) receiving 0..12, 16, 20..24, 33, 100, 1000 elements: decodes, keeps every element, and allocates within the bound (the backing array is regrown geometrically)"},
 			{Name: "unknown-insertion", ShardDepth: 2, Body: unknownInsertion, Doc: "one unknown field (4 numbers x 8 wire forms) inserted at every top-level and nested field boundary of valid encodings; decoded value must not change"},
 		},
